@@ -47,6 +47,7 @@ def fails(obs, case):
     return None
 
 WALKER = dict(bin="walker", driver_cmd=["python3", "lib/null_driver.py"], case_seconds=20)
+UTIL = dict(bin="util", driver="util_driver", model_ml="util_model", extract=["Util"], case_seconds=20)
 LAYOUT = dict(bin="layout", driver_cmd=["python3", "lib/null_driver.py"], case_seconds=20)
 
 CONFIG = dict(
@@ -56,6 +57,7 @@ CONFIG = dict(
     extract=[],
     modes=[("guard-end", {"PVH_GUARD": "end"}), ("guard-start", {"PVH_GUARD": "start"})],
     components=[
+        dict(name="util", cfg=UTIL, quick_cases=1500, thorough_cases=100000),
         dict(name="walker", cfg=WALKER, quick_cases=1000, thorough_cases=80000, release=False),
         dict(name="layout", cfg=LAYOUT, quick_cases=2, thorough_cases=2, release=False, modes=[("plain", {})]),
         dict(prop="C05", quick_cases=1000, thorough_cases=80000, release=False),
